@@ -153,10 +153,12 @@ func Main() {
 			scratchRoot = d
 		}
 	}
-	r.SetRule("evaluation = one message handed to Reactor.Receive of a reactor built as in production around a live node (4-validator simulated network; victim caught up at some consensus step, at the initial height, or fast-syncing), sent by a stub peer connected through the real switch (+ one raw frame written to a real MConnection in group mconn, + one encode/decode round trip of a generated well-formed message in group roundtrip, + one block pair given to the block-sync processor in group blocksync-processor); non-trivial = a distinct mutated message (reactor, type, mutation, peer-state prelude) that passed decoding and validation, i.e. reached the handler and the live state instead of being refused at the door, or a frame sequence whose outcome the reference model predicted exactly")
+	r.SetRule("evaluation = one message handed to Reactor.Receive of a reactor built as in production around a live node (4-validator simulated network; victim caught up at some consensus step, at the initial height, or fast-syncing), sent by a stub peer connected through the real switch (+ one raw frame written to a real MConnection in groups mconn and mconn-stream, + one encode/decode round trip of a generated well-formed message in group roundtrip, + one block pair given to the block-sync processor in group blocksync-processor); non-trivial = a distinct mutated message (reactor, type, mutation, peer-state prelude) that passed decoding and validation, i.e. reached the handler and the live state instead of being refused at the door, or a frame sequence whose outcome the reference model predicted exactly, or a distinct stream of fragments without EOF (channels, fragment size, interleaving) judged against the capacity model, or a distinct multi-peer script of the life cycle of announced transactions (announce, wait, request, reply / no reply / peer leaves, delivery by another peer) that ran to its end")
 	r.Assume("the attacker is any network peer and additionally holds the key of ONE of the four validators (index 3): messages that need a validator signature are signed with that key; honest validators' messages are only replayed")
-	r.Assume("messages longer than the channel's RecvMessageCapacity are not handed to Receive (the connection layer refuses them: judged in group mconn)")
-	r.Assume("wall clock is used only in watchdogs that decide 'hang' (30 s per Receive call, 10 s per gossip iteration pair, 5 s per mutex probe, all confirmed by a goroutine dump inside go-kardia code) and to time the disconnects of group txpool-fetch-race against the fetcher's 500 ms wall-clock timer")
+	r.Assume("messages longer than the channel's RecvMessageCapacity are not handed to Receive (the connection layer refuses them: judged in groups mconn and mconn-stream)")
+	r.Assume("group mconn-stream: a peer may send PacketMsg fragments with EOF=false for ever, on one or several channels (every channel of every reactor: capacities from 64 kB to 100 MB), interleaved with complete messages on other channels. Model: the bytes buffered for an unfinished message never exceed the channel's RecvMessageCapacity; the fragment that would exceed it ends the connection with an error (exactly the capacity is allowed, terminated or not). Verdicts are decided by counting: the connection handles frames in the order written, so a complete message that is DELIVERED after the model's bound proves that all fragments written before it were accepted (the peer then goes on to at least 16x the capacity / 48 MB, 8 MB past the 100 MB block-sync channel in the quick tier); neither error nor delivery within 60 s is inconclusive, never a violation. Live heap after the stream (after a collection) must not exceed twice the capacities of the channels used + 24 MB")
+	r.Assume("group txpool-fetch-lifecycle: about twenty scripts per case run side by side on one node (own stub peers and transactions each, one shared bystander peer that only delivers): directed scripts = (stage at which the announcer leaves: before the request / request in flight / after its reply / after the 5 s request timeout / never) x (delivered afterwards by: nobody / a bystander's broadcast / a bystander's PooledTransactions / the other announcer) x (sole / second announcer), plus duplicate announcements, replies with other transactions than requested, transactions nobody announced, stolen deliveries, late joiners; random scripts over the same alphabet. Peers leave by disconnecting or by being stopped for an undecodable message. Every step that depends on the node's request is executed after that request was observed in the stub peer's outbox")
+	r.Assume("wall clock is used only in watchdogs that decide 'hang' (30 s per Receive call, 10 s per gossip iteration pair, 5 s per mutex probe, all confirmed by a goroutine dump inside go-kardia code), to time the disconnects of group txpool-fetch-race against the fetcher's 500 ms wall-clock timer, and as a stimulus in group txpool-fetch-lifecycle (sleeping past the fetcher's 500 ms arrival timeout and its 5 s request timeout, once per case)")
 	r.Assume("the per-peer gossip goroutines are scheduled by the Go runtime: a replay re-runs the whole case (same seed, group, index), which rebuilds the same network, node state and message list; the interleaving with gossip iterations may differ")
 	only := os.Getenv("C18_ONLY")
 	tg := time.Now()
@@ -192,13 +194,17 @@ func Main() {
 		concurrentGroup(r)
 		lap("concurrent")
 	}
-	if only == "" || only == "race" {
+	if only == "" || only == "race" || only == "fetch" {
 		fetchRace(r)
 		lap("fetchRace")
+		fetchLifecycle(r)
+		lap("fetchLifecycle")
 	}
 	if only == "" || only == "mconn" {
 		mconnGroup(r)
 		lap("mconnGroup")
+		mconnStreamGroup(r)
+		lap("mconnStreamGroup")
 	}
 	if only == "" || only == "roundtrip" {
 		roundtripGroup(r)
@@ -214,7 +220,20 @@ func Main() {
 			"roundtrips": 15000, "mconn_sequences_predicted_exactly": 200, "mconn_messages_delivered": 500, "byz_blocks_decoded_by_victim": 10,
 			"byz_vote_scenarios": 40, "processor_outcome:processed": 10, "processor_outcome:verificationFailure": 10, "fetch_race_attempts": 30,
 			"solicited_block_responses": 20, "messages:blockchain:proto": 1000, "messages:txpool:proto": 400, "messages:evidence:proto": 500, "messages:pex:proto": 250,
-			"messages:consensus:go": 1000, "messages:consensus:bytes": 500} {
+			"messages:consensus:go": 1000, "messages:consensus:bytes": 500,
+			// unterminated messages (group mconn-stream)
+			"mconn_streams": 35, "mconn_streams_dropped_for_capacity": 25, "mconn_streams_dropped_for_capacity:small_channel": 4, "mconn_streams_dropped_for_capacity:large_channel": 15,
+			"mconn_streams_dropped_for_capacity:several_channels": 5, "mconn_streams_within_capacity_all_delivered": 6, "mconn_stream_bytes_without_eof": 120 << 20,
+			"mconn_stream_complete_messages_delivered": 3000,
+			// life cycles of announced transactions (group txpool-fetch-lifecycle)
+			"fetch_lifecycles": 200, "fetch_lifecycles_that_reached_a_request": 150, "fetch_requests_observed": 250, "fetch_probe_requests": 12,
+			"fetch_announcer_left:before-request:never-asked": 20, "fetch_announcer_left:request-in-flight:request-open": 50, "fetch_announcer_left:after-request-timeout:request-open": 15,
+			"fetch_sole_announcer_left_with_its_request_open": 30, "fetch_delivery_by_another_peer_after_the_sole_announcer_left_with_its_request_open": 30,
+			"fetch_delivery_by_another_peer_after_an_announcer_left:before-request:never-asked": 20, "fetch_delivery_by_another_peer_after_an_announcer_left:request-in-flight:request-open": 40,
+			"fetch_delivery_by_another_peer_after_an_announcer_left:after-request-timeout:request-open": 10, "fetch_delivery_by_another_peer_while_a_request_is_open": 50,
+			"fetch_asked_announcer_left_while_another_announcer_remains": 40, "fetch_requests_moved_to_another_announcer_after_the_timeout": 10,
+			"fetch_duplicate_announcements": 15, "fetch_deliveries_of_never_announced_transactions": 30, "fetch_replies:reply-other:request-in-flight": 5,
+			"fetch_peers_left:stopped-for-error": 20} {
 			r.Floor(k, v)
 		}
 	}
